@@ -244,6 +244,16 @@ pub fn monitor_c05(out: &mut Out, b: &Dump, o: &Op, code: i64, a: &Dump, prev: O
             fail_or_known(out, "C05", nested, "assets backing one vault share decreased: (balance - pending fees)/supply fell", ctx);
         }
     }
+    // a deposit arriving while a flash loan is outstanding is priced against a balance that excludes the lent funds (more than the
+    // pro-rata number of shares): the vault refuses it, so a script whose deposits all sit inside loan callbacks mints nothing.
+    // Decided on the script's shape, independently of the nested-loan finding.
+    if let Op::Run { script } | Op::RouterLoan { script, .. } | Op::RouterLoanF { script, .. } = o {
+        let in_loan0 = !matches!(o, Op::Run { .. });
+        let (all_inside, any) = script_deposits_inside_loans(script, in_loan0);
+        if any && all_inside && a.supply > b.supply {
+            fail_or_known(out, "C05", false, "shares were minted by a deposit made while a flash loan was outstanding (priced against a balance without the lent funds: more than pro-rata)", ctx);
+        }
+    }
     if a.supply > 0 && a.lp[I_VAULT] < MIN_LIQ { fail_or_known(out, "C05", nested, "vault holds less than the minimum liquidity of its own shares", ctx); }
     match o {
         Op::Deposit { u: who, amount, .. } => {
